@@ -238,6 +238,11 @@ fn execute_c04(plan: &EncPlan) -> RunOut {
         }
         Ok(Ok(())) => {}
     }
+    {
+        let mut fp = crate::rng::Fp::default();
+        fp.bytes(&clean);
+        out.fingerprint = fp.0;
+    }
     let text = match String::from_utf8(clean.clone()) {
         Ok(t) => t,
         Err(_) => {
@@ -414,6 +419,11 @@ fn execute_c13(plan: &EncPlan) -> RunOut {
             return out;
         }
         _ => {}
+    }
+    {
+        let mut fp = crate::rng::Fp::default();
+        fp.bytes(&clean);
+        out.fingerprint = fp.0;
     }
     let expect: &[PFamily] = match first_bad {
         Some(i) => &given[..i],
@@ -706,6 +716,7 @@ fn execute_c17(plan: &ApiPlan) -> RunOut {
         }
     }
     drop(guard);
+    out.fingerprint = crate::rng::mix2(calls, errs);
     out.violations = vio;
     out.probes.push(("fallible_calls", calls));
     out.probes.push(("calls_returning_err", errs));
